@@ -33,3 +33,27 @@ for name, e in sorted(res.items()):
   for p, c in e['checks'].items():
     fl += ['`' + f.split('::')[-1] + '`' for f in c['failed'][:2]]
   print(f"| {name} | {', '.join(e['properties'])} | {', '.join(e['detected_by']) or 'MISSED'} | {'; '.join(fl[:4])} |")
+
+# ---- section 11: harmless rewrites
+print()
+print('| id | function | rewrite | properties checked | result |')
+print('|---|---|---|---|---|')
+tot = fa = lost = 0
+for f in sorted(glob.glob('/verif/selftest/refactorings/results_*.json')):
+  for k, e in sorted(json.load(open(f)).items()):
+    if 'status' in e:
+      continue
+    tot += 1
+    und = sorted({l.split('function=')[1].split()[0].split('::')[-1]
+                  for c in e['checks'].values() for l in c['lines'] if l.startswith('UNDECIDED')})
+    res = 'FALSE ALARM: ' + ', '.join(e['false_alarm']) if e['false_alarm'] else (
+        'quiet; proof lost for ' + ', '.join(und) if und else 'quiet, all proofs kept')
+    fa += bool(e['false_alarm'])
+    lost += bool(und) and not e['false_alarm']
+    what = e['what'].split('|')
+    fn = what[1].strip() if len(what) > 2 else ', '.join(x.split('::')[-1] for x in e['functions'])
+    desc = what[-1].strip() if what else ''
+    print(f"| {k} | `{fn}` | {desc[:90]} | {', '.join(e['properties'])} | {res} |")
+print()
+print(f'Total {tot} rewrites: {fa} false alarms, {lost} quiet with a lost proof, '
+      f'{tot - fa - lost} quiet with every proof kept.')
